@@ -1356,3 +1356,91 @@ func ruleRelIDAttrQualified(c *eng.Ctx) {
 		c.Undec(R, "pptx <sldId>", token.NoPos, "no struct is decoded for this element")
 	}
 }
+
+// R1.10 [C01, C10]
+func ruleFontsFromOwnResources(c *eng.Ctx) {
+	const R = "R1.10-FONTS-FROM-OWN-RESOURCES"
+	c.Rule(R, "a page is decoded with the fonts its own resource dictionary names: every path to the text extraction of a page passed the registration of that page's fonts, and a font registered under a resource name is built from that entry's own dictionary, never taken from a table filled while other pages or entries were read (resource names and BaseFont values are not unique across pages)", 3, 0)
+	fn := c.P.Func("reader.(*Reader).extractTextWithFragments")
+	if fn == nil {
+		c.Undec(R, "reader.(*Reader).extractTextWithFragments", token.NoPos, "anchor not found")
+	} else {
+		isReg := func(in ssa.Instruction) bool {
+			ci, ok := in.(ssa.CallInstruction)
+			if !ok {
+				return false
+			}
+			nm := eng.CalleeName(ci)
+			return strings.HasSuffix(nm, ").RegisterFontsFromPage") || strings.HasSuffix(nm, ").RegisterFontsFromResources")
+		}
+		blockHas := func(b *ssa.BasicBlock, before ssa.Instruction) bool {
+			for _, in := range b.Instrs {
+				if in == before {
+					return false
+				}
+				if isReg(in) {
+					return true
+				}
+			}
+			return false
+		}
+		must := eng.MustCross(fn, func(e eng.Edge) bool { return blockHas(e.From, nil) }, nil)
+		n := 0
+		for _, ci := range eng.Calls(fn, false, func(nm string, _ ssa.CallInstruction) bool {
+			return strings.HasSuffix(nm, ").ExtractFromBytes") || nm == "text.(*Extractor).Extract"
+		}) {
+			n++
+			c.Check(must[ci.Block()] || blockHas(ci.Block(), ci), R, fmt.Sprintf("reader.(*Reader).extractTextWithFragments#extract%d", n), ci.Pos(),
+				"fonts of the page registered on every path", "the page's text can be extracted without its fonts having been registered from its own resources (a shortcut through fonts remembered from other pages)")
+		}
+		if n == 0 {
+			c.Undec(R, "reader.(*Reader).extractTextWithFragments#extract", fn.Pos(), "no extraction call found")
+		}
+	}
+	reg := c.P.Func("text.(*Extractor).RegisterFontsFromResources")
+	if reg == nil {
+		c.Undec(R, "text.(*Extractor).RegisterFontsFromResources", token.NoPos, "anchor not found")
+		return
+	}
+	n := 0
+	for _, h := range eng.Cluster(reg, 1) {
+		if h.Pkg != reg.Pkg {
+			continue
+		}
+		for _, ci := range eng.Calls(h, false, func(nm string, _ ssa.CallInstruction) bool { return strings.HasSuffix(nm, ").RegisterParsedFont") }) {
+			if !eng.InLoop(ci.Block()) {
+				continue
+			}
+			n++
+			args := ci.Common().Args
+			fv := args[len(args)-1]
+			cached, built := false, false
+			for v := range eng.Slice(fv, func(*ssa.Call) bool { return true }) {
+				switch x := v.(type) {
+				case *ssa.Lookup:
+					if _, isMap := x.X.Type().Underlying().(*types.Map); isMap && strings.Contains(x.Type().String(), "font.Font") {
+						// a table keyed by the identity of the font object (its indirect reference) is sound
+						byRef := false
+						for k := range eng.Slice(x.Index, func(*ssa.Call) bool { return true }) {
+							if strings.HasSuffix(eng.TypeName(k.Type()), "core.IndirectRef") {
+								byRef = true
+							}
+						}
+						if !byRef {
+							cached = true
+						}
+					}
+				case *ssa.Call:
+					if strings.HasPrefix(eng.CalleeName(x), "font.New") {
+						built = true
+					}
+				}
+			}
+			c.Check((built || !cached) && !cached, R, fmt.Sprintf("%s#register%d", eng.FuncName(h), n), ci.Pos(), "registered font is built from the entry's dictionary",
+				"a font is registered from a lookup table instead of (only) from the dictionary of the resource entry: two different fonts that share the table key decode with the same encoding")
+		}
+	}
+	if n == 0 {
+		c.Undec(R, "text.(*Extractor).RegisterFontsFromResources#register", reg.Pos(), "no font registration in the entry loop found")
+	}
+}
